@@ -81,3 +81,21 @@ VARIANTS += [
  dict(name='benign-list-symlink-then-dir-tests', file=M, expect='silent', find=LS_OLD,
       replace='\t\tif typ&fs.ModeSymlink != 0 {\n\t\t\treturn nil\n\t\t}\n\t\tif !typ.IsDir() {\n\t\t\treturn nil\n\t\t}\n'),
 ]
+
+# the validated name kept in a field of a result object handed back by a helper
+NM_OLD = '\tif err := validatePluginName(pluginName); err != nil {\n\t\treturn nil, nil, err\n\t}\n\t// validate and get new plugin metadata\n'
+def nm_new(call='chosen, err := chooseName(pluginName)'):
+    return '\t' + call + '\n\tif err != nil {\n\t\treturn nil, nil, err\n\t}\n\t// validate and get new plugin metadata\n'
+def nm_helper(body):
+    return (M, '// validatePluginName checks that name is a single file name', 'type chosenName struct{ name string }\n\nfunc chooseName(candidate string) (*chosenName, error) {\n' + body + '}\n\n// validatePluginName checks that name is a single file name')
+NM_USE = (M, '\tpluginDirPath, err := m.pluginFS.SysPath(pluginName)\n', '\tpluginDirPath, err := m.pluginFS.SysPath(chosen.name)\n')
+VARIANTS += [
+ dict(name='benign-validated-name-in-result-object', file=M, expect='silent', find=NM_OLD, replace=nm_new(),
+      edits=[nm_helper('\tif err := validatePluginName(candidate); err != nil {\n\t\treturn nil, err\n\t}\n\tc := &chosenName{}\n\tc.name = candidate\n\treturn c, nil\n'), NM_USE]),
+ dict(name='result-object-name-stored-before-validation-fails-open', file=M, expect='flagged(confined/(*ngo/plugin.CLIManager).Install)', find=NM_OLD, replace=nm_new(),
+      edits=[nm_helper('\tc := &chosenName{}\n\tc.name = candidate\n\tif err := validatePluginName(candidate); err != nil {\n\t\treturn c, nil\n\t}\n\treturn c, nil\n'), NM_USE]),
+ dict(name='result-object-name-left-empty-on-a-path', file=M, expect='flagged(confined/(*ngo/plugin.CLIManager).Install)', find=NM_OLD, replace=nm_new(),
+      edits=[nm_helper('\tc := &chosenName{}\n\tif len(candidate) > 64 {\n\t\treturn c, nil\n\t}\n\tif err := validatePluginName(candidate); err != nil {\n\t\treturn nil, err\n\t}\n\tc.name = candidate\n\treturn c, nil\n'), NM_USE]),
+ dict(name='result-object-name-of-another-value', file=M, expect='flagged(confined/(*ngo/plugin.CLIManager).Install)', find=NM_OLD, replace=nm_new(),
+      edits=[nm_helper('\tif err := validatePluginName(candidate); err != nil {\n\t\treturn nil, err\n\t}\n\tc := &chosenName{}\n\tc.name = candidate + "/.."\n\treturn c, nil\n'), NM_USE]),
+]
